@@ -424,10 +424,20 @@ def cut_loop(I, node, env, spec):
     v0 = None
     if variant is not None:
         v0 = _hook(I, variant, [vc, _vars_dict(I, env, extra)])
+    from .interp import ReturnSig
+
     try:
         I.exec_block(node.body, env)
     except BreakSig:
+        # "one arbitrary iteration" speaks about every element only if no iteration ends the
+        # loop for the others: a contract whose loop may stop early says so ("may_exit")
+        if not spec.get("may_exit"):
+            ctx.check(False, f"{name}.no_early_exit", where)
         return
+    except ReturnSig:
+        if not spec.get("may_exit"):
+            ctx.check(False, f"{name}.no_early_exit", where)
+        raise
     except ContinueSig:
         pass
     if is_for:
